@@ -57,6 +57,11 @@ def registry():
     return reg
 
 
+def _unknown_violations(ctx):
+    known = lib.load_known()
+    return [v for v in ctx.violations if lib.match_known(ctx.prop, v, known) is None]
+
+
 def main():
     ap = argparse.ArgumentParser()
     ap.add_argument('prop')
@@ -86,6 +91,24 @@ def main():
     except Exception:  # noqa: BLE001
         traceback.print_exc()
         return 2
+    # a proof obligation or the correspondence broke and no failing input was seen yet:
+    # search harder on the real code (the property's own thorough generators, bounded in time)
+    ctx.flush_model()
+    if (not lean['ok'] or ctx.disagreements) and not _unknown_violations(ctx):
+        search_s = int(os.environ.get('VERIF_SEARCH_S', '90'))
+        ctx2 = lib.Ctx(args.prop, 'thorough', seed + 7919)
+        ctx2.budget_s = search_s
+        ctx2.no_model = True
+        try:
+            fn(ctx2)
+        except Exception:  # noqa: BLE001
+            traceback.print_exc()
+        ctx2.pending = []
+        ctx.violations.extend(ctx2.violations)
+        ctx.evaluations += ctx2.evaluations
+        ctx.case_hashes |= ctx2.case_hashes
+        ctx.notes.append(f'failing-input search ran {search_s}s budget: {ctx2.evaluations} more evaluations, '
+                         f'{len(ctx2.violations)} oracle failures')
     code = lib.finish(ctx, lean, '', TRUSTED, rule)
     print(f'{args.prop} {tier} seed={seed}: evaluations={ctx.evaluations} '
           f'distinct={len(ctx.case_hashes)} lines={ctx.sessions_lines} '
